@@ -765,6 +765,44 @@ pub fn run(p: &Params) -> Run {
             }
         }
     }
+    // ---- stream 4: PERCENTILE with fractions of more than two decimals over large groups ----
+    // the rank min(⌊p·n⌋, n − 1) only moves with the third decimal of p once the group is large; values are the distinct numbers
+    // 1..n in a shuffled order, so the cell names the rank. (Nearest-rank is the code's choice, see `code_choice`; given the
+    // choice, every decimal of p counts.) Groups of up to 200 values also go to the Lean model.
+    let m4 = p.n(40, 1500);
+    for _ in 0..m4 {
+        let n = *rng.pick(&[8usize, 100, 200, 1000, 2000]);
+        let pt: &'static str = *rng.pick(&["0.125", "0.975", "0.999", "0.001", "0.333", "0.0625", "0.29", "0.57", "0.995"]);
+        let mut vals: Vec<i64> = (1..=n as i64).collect();
+        for i in (1..vals.len()).rev() { let j = rng.below(i + 1); vals.swap(i, j); }
+        let lines: Vec<String> = vals.iter().map(|v| format!("a;{};;;~;;;", v)).collect();
+        let text = format!("SELECT PERCENTILE(v, {}), COUNT(*) FROM t", pt);
+        let desc = format!("defs={} query={} input=the numbers 1..{} in a shuffled order, one per line (`a;<v>;;;~;;;`)", C04_DEF, text, n);
+        let rows: Vec<Vec<Value>> = vals.iter().map(|v| { let mut r = vec![Value::Null; NCOLS]; r[V] = Value::Int(*v); r }).collect();
+        let refs: Vec<&Vec<Value>> = rows.iter().collect();
+        let want = vec![vec![ref_aggregate(&AggK::Percentile(V, pt), &refs), Value::Int(n as i64)]];
+        run.oracle_checks += 1;
+        let outcome = match run_engine_batch(C04_DEF, &text, &lines) {
+            RowsOutcome::Rows { rows: got, .. } => {
+                if got != want {
+                    run.fail(desc.clone(), "code-choice:nearest-rank-percentile-cell-differs-from-reference", format!("implementation table {:?}; the element of rank min(floor(p*n), n-1) is {:?}", got, want));
+                }
+                "ok"
+            }
+            RowsOutcome::Error(e) => { run.fail(desc.clone(), "aggregate-error-on-typed-statement", format!("implementation reports `{}` but the values give {:?}", e, want)); "err" }
+            RowsOutcome::Panic(msg) => { run.fail(desc.clone(), "panic:aggregate", msg); "panic" }
+        };
+        run.count(&format!("big-percentile:{}", outcome));
+        if n <= 200 {
+            if let Ok(prepared) = prepare(C04_DEF, &text) {
+                let files = vec![join_lines(&lines)];
+                let result = run_files(&prepared, &files);
+                if let Some(case) = batch_case(&prepared, b"", &files, None) {
+                    run.case_with_desc(case, result.wire(), format!("big-percentile|n{}|{}", n, outcome), desc);
+                }
+            }
+        }
+    }
     run.notes.push("stream 1: free-form aggregate statements (1-4 select items mixing keys, aggregates, transforms; WHERE/GROUP BY/HAVING) over 0-30 lines with 5-80% NULL fields; stream 2: typed statements over TEXT/INT/REAL/BOOLEAN/TIMESTAMP columns with per-(group, column) NULL rates of 0/30/100%, single-row groups, p in {0, .5, .99, 1}, HAVING with hidden aggregates, arithmetic wrappers — compared with an independent reference".to_owned());
     // the end-to-end stream: the same property seen from raw texts and raw file bytes (`e2e.rs`, Lean `Pipeline.runText`)
     crate::e2e::stream(&mut run, &mut Rng::new(p.seed ^ 0xe2e04), p.n(250, 3000), "group");
